@@ -50,19 +50,37 @@ def plan(tier, seed):
                for k in range(NSHARDS)]
     shards += [('soup', 'extra', 'EXTRA', 3 if tier == 'quick' else 4, k) for k in range(NSHARDS)]
     shards += [('inject', ndocs // NSHARDS, seed * 1000 + k) for k in range(NSHARDS)]
+    if tier != 'quick':
+        shards += [('fuzz', FUZZ_RUNS, seed * 100 + k + 1) for k in range(NSHARDS)]
     return {'shards': shards,
             'bounds': {'soup_len_default': L, 'soup_len_everytype': LE, 'documents': ndocs,
                        'faults': FAULTS},
             'required_classes': ['soup:tree', 'soup:parse-error', 'inject:rejected',
                                  'fault:{', 'fault:}', 'fault:$', 'fault:\\begin{x}',
-                                 'fault:\\end{x}', 'fault:\\)', 'fault:\\]']}
+                                 'fault:\\end{x}', 'fault:\\)', 'fault:\\]',
+                                 'error-on-first-line:non-default', 'error-offsets:default']}
 
 
-def strict_outcome(s, ctxname):
+# (line_number_offset, first_line_column_offset, column_offset) given to the walker; the location
+# of an error must be consistent with them.  Chosen per input by a checksum, so that every soup
+# is checked with the defaults or with one non-default set (C20 covers the calculator itself).
+ERR_OFFSETS = [(None, 0, 0), (None, 0, 0), (10, 3, 2), (0, 0, 5), (1, 7, 0), (3, 0, 0)]
+
+
+def offsets_for(s):
+    import zlib
+    return ERR_OFFSETS[zlib.crc32(s.encode('utf-8', 'surrogatepass')) % len(ERR_OFFSETS)]
+
+
+def strict_outcome(s, ctxname, off=None):
     """('tree', nodelist) | ('error', exc) | ('foreign', exc) | ('nonterm', exc)"""
     PE = px.parse_error_class()
+    kw = {}
+    if off is not None:
+        kw = {'line_number_offset': off[0], 'first_line_column_offset': off[1],
+              'column_offset': off[2]}
     try:
-        w, nl = px.parse(s, ctx(ctxname), tolerant=False)
+        w, nl = px.parse(s, ctx(ctxname), tolerant=False, **kw)
         return 'tree', nl
     except PE as e:
         return 'error', e
@@ -74,7 +92,9 @@ def strict_outcome(s, ctxname):
 
 def check_soup(s, ctxname, res, case):
     res.case()
-    kind, val = strict_outcome(s, ctxname)
+    off = tuple(case['off']) if case.get('off') else offsets_for(s)
+    case = dict(case, off=list(off))
+    kind, val = strict_outcome(s, ctxname, off)
     if kind == 'tree':
         res.label('soup:tree')
         if val is None:
@@ -96,7 +116,10 @@ def check_soup(s, ctxname, res, case):
         res.fail('c05:error-pos-out-of-input:' + str(what),
                  'error pos=%r for input of length %d (%s)' % (pos, len(s), e.msg), case)
         return
-    exp = linecol_model(s, pos, None, 0, 0)
+    exp = linecol_model(s, pos, off[0], off[1], off[2])
+    res.label('error-offsets:' + ('default' if off == (None, 0, 0) else 'non-default'))
+    if pos <= (s.find('\n') if '\n' in s else len(s)):
+        res.label('error-on-first-line:' + ('default' if off == (None, 0, 0) else 'non-default'))
     if (e.lineno, e.colno) != exp:
         res.fail('c05:error-linecol:' + str(what),
                  'error at pos %d reports line/col %r/%r, expected %r'
@@ -138,7 +161,18 @@ def check_inject(src, ctxname, off, fault, res, case):
         res.fail(monitor.nonterm_key(val), 'strict parse does not terminate on %r' % faulty, case)
 
 
+FUZZ_RUNS = 30000
+
+
+def fuzz_case(s, i):
+    return {'kind': 'src', 'ctx': ('default', 'extra', 'every')[i % 3], 'src': s}
+
+
 def run_shard(shard, res):
+    if shard[0] == 'fuzz':
+        from .. import fuzz
+        fuzz.campaign(ID, shard[1], shard[2], res)
+        return
     if shard[0] == 'soup':
         _, ctxname, alpha, L, k = shard
         for toks in soups.enum_tokens(ALPHAS[alpha], L, k, NSHARDS):
@@ -169,6 +203,11 @@ def run_shard(shard, res):
 
 
 def check_case(case, res):
+    if case['kind'] == 'src':
+        check_soup(case['src'], case['ctx'], res, case)
+        if any(c in case['src'] for c in '\\{}$[]'):
+            res.nontriv(case['src'])
+        return
     if case['kind'] == 'soup':
         check_soup(''.join(case['tokens']), case['ctx'], res, case)
     else:
@@ -176,6 +215,12 @@ def check_case(case, res):
 
 
 def minimise(case, key):
+    if case['kind'] == 'src':
+        def pred(t):
+            r = Result()
+            check_case(dict(case, src=''.join(t)), r)
+            return key in r.failures
+        return dict(case, src=''.join(ddmin(list(case['src']), pred)))
     if case['kind'] == 'soup':
         def pred(t):
             r = Result()
